@@ -166,12 +166,14 @@ def cleanedLoc (c : CDS) : R Loc := do
   let st ← cleanExons c.loc CleanSt.init (c.exonIter.zip c.frameIter)
   cleanedLocation c.loc st
 
-/-- chunk branch shared by both `_prepare_*` functions (cds.py:690-702, 759-767): lift the (cleaned) location onto
-    the chunk, lift it back, measure the 5' distance on the un-lifted location -/
-def chunkBranch (k : ChunkCDS) (relativeLoc : Location) : R (Location × Int) := do
+/-- chunk branch shared by both `_prepare_*` functions (cds.py:690-703, 760-772): lift the (window-restricted)
+    location `relativeLoc` onto the chunk, lift it back, and measure the 5' distance on the WHOLE (cleaned) location
+    `fullLoc` — also when a codon window restricted `relativeLoc` (repaired by d8ca372; before, the distance was
+    measured on `relativeLoc` and a window cutting the 5' end lost the frame: F-C07d) -/
+def chunkBranch (k : ChunkCDS) (fullLoc relativeLoc : Location) : R (Location × Int) := do
   let crl ← chunkDown relativeLoc k.chunk.w k.chunk.wst
   let onChrom ← liftUp k.chunk crl
-  let d ← calculateFrameOffset k.base relativeLoc onChrom
+  let d ← calculateFrameOffset k.base fullLoc onChrom
   pure (crl, d)
 
 /-- `_prepare_single_exon_window_for_scan_codon_locations(None, chunk_relative_coordinates=True)` -/
@@ -180,7 +182,7 @@ def prepareSingleChunk (k : ChunkCDS) : R (Location × Int) := do
     let frame0 ← match k.base.frames.head? with
       | some f => pure f
       | none => throw .MismatchedFrame
-    let (crl, d) ← chunkBranch k (.compound k.base.loc)
+    let (crl, d) ← chunkBranch k (.compound k.base.loc) (.compound k.base.loc)
     pure (crl, frame0.value + d)             -- NOT reduced mod 3 (F-C05a)
   else prepareSingle k.base none
 
@@ -188,7 +190,7 @@ def prepareSingleChunk (k : ChunkCDS) : R (Location × Int) := do
 def prepareMultiChunk (k : ChunkCDS) : R (Location × Int) := do
   if k.isChunkRelative then do
     let cleaned ← cleanedLoc k.base
-    chunkBranch k (.compound cleaned)
+    chunkBranch k (.compound cleaned) (.compound cleaned)
   else prepareMulti k.base none
 
 def prepareChunk (k : ChunkCDS) : R (Location × Int) :=
@@ -200,8 +202,8 @@ def chunkRelativeCodonLocations (k : ChunkCDS) : R (List Location) := do
   if (locLen location : Int) - offset ≥ 3 then scanWindows3 location offset else pure []
 
 /-- both `_prepare_*` functions with a codon window (`relative_window` in chromosome coordinates) on a chunk-built
-    CDS: the (cleaned) location is first restricted to the window, then lifted onto the chunk — and the frame offset
-    is measured against the RESTRICTED location (cds.py:697, 770) -/
+    CDS: the (cleaned) location is first restricted to the window, then lifted onto the chunk; the frame offset is
+    measured against the whole (cleaned) location (cds.py:699, 772) -/
 def prepareChunkW (k : ChunkCDS) (win : Option Blk) : R (Location × Int) :=
   if ¬ k.isChunkRelative then prepare k.base win
   else if k.base.numBlocks > 1 then do
@@ -209,7 +211,7 @@ def prepareChunkW (k : ChunkCDS) (win : Option Blk) : R (Location × Int) :=
     let rel ← match windowTruthy win with
       | some w => intersectWindow cleaned w
       | none => pure (Location.compound cleaned)
-    chunkBranch k rel
+    chunkBranch k (.compound cleaned) rel
   else do
     let frame0 ← match k.base.frames.head? with
       | some f => pure f
@@ -217,7 +219,7 @@ def prepareChunkW (k : ChunkCDS) (win : Option Blk) : R (Location × Int) :=
     let rel ← match windowTruthy win with
       | some w => intersectWindow k.base.loc w
       | none => pure (Location.compound k.base.loc)
-    let (crl, d) ← chunkBranch k rel
+    let (crl, d) ← chunkBranch k (.compound k.base.loc) rel
     pure (crl, frame0.value + d)
 
 /-- `scan_chunk_relative_codon_locations(chromosome_start, chromosome_end)` (no expansion) -/
